@@ -1,4 +1,5 @@
 Require Import ZArith List Lia Bool.
+From VekProofs Require Import C17_zl.
 From VekLib Require Import Ops MachineInt.
 From VekGen Require Import C17_gen.
 From VekProofs Require Import C17_int_spec.
@@ -86,92 +87,165 @@ Proof.
     apply Z.mod_mul. lia.
 Qed.
 
+
+Lemma ibin_quot s x y : 0 < y -> ibin s ODiv x y = Some (Z.quot x y).
+Proof. intros Hy. unfold ibin. rewrite (proj2 (Z.eqb_neq y 0)) by lia. rewrite (proj2 (Z.eqb_neq y (-1))) by lia. rewrite andb_false_r. reflexivity. Qed.
+Lemma ibin_remt s x y : 0 < y -> ibin s ORem x y = Some (Z.rem x y).
+Proof. intros Hy. unfold ibin. rewrite (proj2 (Z.eqb_neq y 0)) by lia. rewrite (proj2 (Z.eqb_neq y (-1))) by lia. rewrite andb_false_r. reflexivity. Qed.
+
+(** the repaired signed wrapped_between: correct for every in-range input *)
+Lemma signed_min s : signed s = true -> imin s = - imax s - 1.
+Proof. unfold imin, imax. intros ->. lia. Qed.
+Lemma swb s x lo hi : wf s -> signed s = true -> in_range s x -> in_range s lo -> in_range s hi -> 0 <= lo < hi ->
+  iret1 (irun s (ienv [x; lo; hi]) p_s_wrapped_between) (wb_post x lo hi).
+Proof.
+  intros Hw Hs Hx Hl Hh Hb. destruct (range_facts s Hw) as (Hmin & Hmax & _). pose proof (signed_min s Hs) as Hsm.
+  unfold in_range in *. unfold iret1, wb_post. isimp. zdec.
+  set (R := hi - lo) in *. assert (HR : 0 < R) by (unfold R; lia).
+  rewrite (ibin_sub s hi lo) by (unfold in_range; fold R; lia). fold R.
+  rewrite (ibin_remt s x R) by lia. rewrite (ibin_remt s lo R) by lia.
+  destruct (quot_rem_floor x R HR) as (Ex & Bx & Fneg & Fpos). cbv zeta in *.
+  rewrite (Z.rem_mod_nonneg lo R) by lia.
+  pose proof (Z.mod_pos_bound lo R HR) as Bl. pose proof (Z.div_mod lo R ltac:(lia)) as El.
+  set (mt := Z.rem x R) in *. set (qt := Z.quot x R) in *. set (b := lo mod R) in *. set (ql := lo / R) in *.
+  destruct (mt <? 0) eqn:E1; [ apply Z.ltb_lt in E1 | apply Z.ltb_ge in E1 ].
+  - rewrite (ibin_add s mt R) by (unfold in_range; lia).
+    rewrite (ibin_sub s (mt + R) b) by (unfold in_range; lia).
+    destruct (mt + R - b <? 0) eqn:E2; [ apply Z.ltb_lt in E2 | apply Z.ltb_ge in E2 ].
+    + rewrite (ibin_add s (mt + R - b) R) by (unfold in_range; lia).
+      rewrite (ibin_add s lo (mt + R - b + R)) by (unfold in_range; unfold R in *; lia).
+      eexists. split; [ reflexivity | ]. split; [ unfold R in *; lia | ].
+      replace (lo + (mt + R - b + R) - x) with ((ql + 2 - qt) * R) by (rewrite Ex, El; ring). apply Z.mod_mul. lia.
+    + rewrite (ibin_add s lo (mt + R - b)) by (unfold in_range; unfold R in *; lia).
+      eexists. split; [ reflexivity | ]. split; [ unfold R in *; lia | ].
+      replace (lo + (mt + R - b) - x) with ((ql + 1 - qt) * R) by (rewrite Ex, El; ring). apply Z.mod_mul. lia.
+  - rewrite (ibin_sub s mt b) by (unfold in_range; lia).
+    destruct (mt - b <? 0) eqn:E2; [ apply Z.ltb_lt in E2 | apply Z.ltb_ge in E2 ].
+    + rewrite (ibin_add s (mt - b) R) by (unfold in_range; lia).
+      rewrite (ibin_add s lo (mt - b + R)) by (unfold in_range; unfold R in *; lia).
+      eexists. split; [ reflexivity | ]. split; [ unfold R in *; lia | ].
+      replace (lo + (mt - b + R) - x) with ((ql + 1 - qt) * R) by (rewrite Ex, El; ring). apply Z.mod_mul. lia.
+    + rewrite (ibin_add s lo (mt - b)) by (unfold in_range; unfold R in *; lia).
+      eexists. split; [ reflexivity | ]. split; [ unfold R in *; lia | ].
+      replace (lo + (mt - b) - x) with ((ql - qt) * R) by (rewrite Ex, El; ring). apply Z.mod_mul. lia.
+Qed.
+
 Lemma C17_int_wrapped_between : C17_int_wrapped_between_stmt.
 Proof.
   intros s x lo hi Hw Hx Hl Hh. split.
-  - assert (E : p_s_wrapped_between = p_u_wrapped_between) by reflexivity.
-    repeat (apply Forall_cons; [ | ]); try apply Forall_nil; rewrite ?E; split.
-    1,3: intros Hb Hg; apply wb_core; assumption.
-    all: intros Hn; isimp; destruct (lo <? hi) eqn:E1; [ | reflexivity ];
-         destruct (lo <? 0) eqn:E2; [ reflexivity | ];
-         apply Z.ltb_lt in E1; apply Z.ltb_ge in E2; exfalso; apply Hn; lia.
-  - intros Hu Hb. destruct (range_facts s Hw) as (Hmin & Hmax & Hu0). specialize (Hu0 Hu).
-    unfold in_range in *. destruct (Z_lt_ge_dec x lo) as [Hlt|Hge]; [ right | left; lia ].
-    assert (HR : 0 < hi - lo) by lia.
-    pose proof (Z.mul_div_le (lo - x) (hi - lo) HR). split; nia.
+  - intros Hb. split; [ | split ].
+    + intros Hg. apply wb_core; assumption.
+    + intros Hu. destruct (range_facts s Hw) as (Hmin & Hmax & Hu0). specialize (Hu0 Hu).
+      unfold in_range in *. destruct (Z_lt_ge_dec x lo) as [Hlt|Hge]; [ right | left; lia ].
+      assert (HR : 0 < hi - lo) by lia.
+      pose proof (Z.mul_div_le (lo - x) (hi - lo) HR). split; nia.
+    + intros Hs. apply swb; assumption.
+  - intros Hn. split; isimp; (destruct (lo <? hi) eqn:E1; [ | reflexivity ]);
+      (destruct (lo <? 0) eqn:E2; [ reflexivity | ]);
+      apply Z.ltb_lt in E1; apply Z.ltb_ge in E2;
+      (destruct (0 <? hi) eqn:E3; [ | reflexivity ]); exfalso; apply Hn; lia.
 Qed.
 
 Lemma tri_range u m : 0 <= m < 2 * u -> 0 <= tri u m <= u.
 Proof. intros H. unfold tri. destruct (m <? u) eqn:E; [ apply Z.ltb_lt in E | apply Z.ltb_ge in E ]; lia. Qed.
 
+(** the repaired unsigned ping-pong: no 2*upper is formed *)
+Lemma upp s x u : wf s -> 2 <= imax s -> signed s = false -> in_range s x -> in_range s u -> 0 < u ->
+  irun s (ienv [x; u]) p_u_pingpong = Ret ([], [tri u (x mod (2 * u))]).
+Proof.
+  intros Hw H2 Hs Hx Hu H0. destruct (range_facts s Hw) as (Hmin & Hmax & Hu0). specialize (Hu0 Hs). unfold in_range in *.
+  isimp. zdec.
+  rewrite (ibin_rem s x u) by lia. rewrite (ibin_div s x u) by lia.
+  rewrite (ibin_add s 1 1) by (unfold in_range; lia). change (1 + 1) with 2.
+  assert (Hq : 0 <= x / u) by (apply Z.div_pos; lia).
+  rewrite (ibin_rem s (x / u) 2) by lia.
+  rewrite (mod_2u x u H0).
+  pose proof (Z.mod_pos_bound (x / u) 2 ltac:(lia)) as Be. pose proof (Z.mod_pos_bound x u H0) as Br.
+  set (e := (x / u) mod 2) in *. set (r := x mod u) in *.
+  unfold tri.
+  destruct (0 =? e) eqn:E; [ apply Z.eqb_eq in E | apply Z.eqb_neq in E ].
+  - replace (u * e + r) with r by nia. rewrite (proj2 (Z.ltb_lt r u)) by lia. reflexivity.
+  - assert (He : e = 1) by lia. rewrite He. replace (u * 1 + r) with (u + r) by lia.
+    rewrite (proj2 (Z.ltb_ge (u + r) u)) by lia.
+    rewrite (ibin_sub s u r) by (unfold in_range; lia). f_equal. f_equal. f_equal. lia.
+Qed.
 
-Lemma spp s x u : wf s -> in_range s x -> in_range s u -> 0 < u -> 2 * u <= imax s -> wb_guard s x 0 (2 * u) ->
+(** the repaired signed ping-pong *)
+Lemma spp s x u : wf s -> 2 <= imax s -> signed s = true -> in_range s x -> in_range s u -> 0 < u ->
   irun s (ienv [x; u]) p_s_pingpong = Ret ([], [let m := x mod (2 * u) in if u <? m then 2 * u - m else m]).
 Proof.
-  intros Hw Hx Hu H0 H2 Hg. destruct (range_facts s Hw) as (Hmin & Hmax & _). unfold in_range in *.
+  intros Hw H2 Hs Hx Hu H0. destruct (range_facts s Hw) as (Hmin & Hmax & _). pose proof (signed_min s Hs) as Hsm. unfold in_range in *.
   isimp. zdec.
-  rewrite (ibin_add s u u) by (unfold in_range; lia).
-  replace (u + u) with (2 * u) by lia. set (R := 2 * u) in *. assert (HR : 0 < R) by (unfold R; lia).
-  zdec.
-  rewrite (ibin_sub s R 0) by (unfold in_range; lia). rewrite Z.sub_0_r.
-  destruct (Z_lt_ge_dec x 0) as [Hlt|Hge].
-  - destruct Hg as [Hg|[Hg1 Hg2]]; [ lia | ]. rewrite Z.sub_0_r in Hg2.
-    rewrite (proj2 (Z.ltb_lt x 0)) by lia.
-    set (D := 0 - x) in *. assert (HD : 0 < D) by (unfold D; lia).
-    pose proof (Z.mul_div_le D R HR) as Q1. pose proof (Z.mul_succ_div_gt D R HR) as Q2.
-    set (q := D / R) in *. assert (Hq : 0 <= q) by (apply Z.div_pos; lia).
-    assert (Hq1 : q + 1 <= R * (q + 1)) by nia.
-    rewrite (ibin_sub s 0 x) by (unfold in_range; fold D; lia). fold D.
-    rewrite (ibin_div s D R) by lia. fold q.
-    rewrite (ibin_add s q 1) by (unfold in_range; lia).
-    rewrite (ibin_mul s R (q + 1)) by (unfold in_range; nia).
-    assert (Hv : D < R * (q + 1) <= D + R) by nia.
-    rewrite (ibin_add s x (R * (q + 1))) by (unfold in_range; unfold D in *; lia).
-    rewrite (ibin_sub s (x + R * (q + 1)) 0) by (unfold in_range; unfold D in *; lia). rewrite Z.sub_0_r.
-    set (y := x + R * (q + 1)). assert (Hy : 0 <= y) by (unfold y, D in *; lia).
-    rewrite (ibin_rem s y R) by lia.
-    pose proof (Z.mod_pos_bound y R HR) as Hm.
-    rewrite (ibin_add s 0 (y mod R)) by (unfold in_range; lia). rewrite Z.add_0_l.
-    assert (E : y mod R = x mod R).
-    { unfold y. rewrite Z.mul_comm. apply Z.mod_add. lia. }
-    rewrite E in *. cbv zeta.
-    destruct (u <? x mod R) eqn:E1; [ | reflexivity ].
-    apply Z.ltb_lt in E1. rewrite (ibin_sub s R (x mod R)) by (unfold in_range; lia). reflexivity.
-  - rewrite (proj2 (Z.ltb_ge x 0)) by lia.
-    rewrite (ibin_sub s x 0) by (unfold in_range; lia). rewrite Z.sub_0_r.
-    rewrite (ibin_rem s x R) by lia.
-    pose proof (Z.mod_pos_bound x R HR) as Hm.
-    rewrite (ibin_add s 0 (x mod R)) by (unfold in_range; lia). rewrite Z.add_0_l. cbv zeta.
-    destruct (u <? x mod R) eqn:E1; [ | reflexivity ].
-    apply Z.ltb_lt in E1. rewrite (ibin_sub s R (x mod R)) by (unfold in_range; lia). reflexivity.
+  rewrite (ibin_add s 1 1) by (unfold in_range; lia). change (1 + 1) with 2.
+  rewrite (ibin_quot s x u) by lia. rewrite (ibin_remt s x u) by lia.
+  destruct (quot_rem_floor x u H0) as (Ex & Bx & Fneg & Fpos). cbv zeta in *.
+  set (mt := Z.rem x u) in *. set (qt := Z.quot x u) in *.
+  rewrite (ibin_remt s qt 2) by lia.
+  rewrite (mod_2u x u H0).
+  pose proof (Z.mod_pos_bound (x / u) 2 ltac:(lia)) as Be. pose proof (Z.mod_pos_bound x u H0) as Br.
+  pose proof (Z.rem_bound_abs qt 2 ltac:(lia)) as Bq. pose proof (Z.quot_rem' qt 2) as Eq.
+  destruct (mt <? 0) eqn:E1; [ apply Z.ltb_lt in E1 | apply Z.ltb_ge in E1 ].
+  - destruct (Fneg E1) as (Fq & Fr). rewrite Fq, Fr.
+    pose proof (Z.div_mod (qt - 1) 2 ltac:(lia)) as Ed. pose proof (Z.mod_pos_bound (qt - 1) 2 ltac:(lia)) as Bd.
+    set (e := (qt - 1) mod 2) in *.
+    rewrite (ibin_add s mt u) by (unfold in_range; lia).
+    destruct (0 =? Z.rem qt 2) eqn:E; [ apply Z.eqb_eq in E | apply Z.eqb_neq in E ].
+    + assert (He : e = 1) by lia. rewrite He. replace (u * 1 + (mt + u)) with (u + (mt + u)) by lia.
+      rewrite (ibin_sub s u (mt + u)) by (unfold in_range; lia).
+      rewrite (proj2 (Z.ltb_lt u (u + (mt + u)))) by lia. f_equal. f_equal. f_equal. lia.
+    + assert (He : e = 0) by lia. rewrite He. replace (u * 0 + (mt + u)) with (mt + u) by lia.
+      rewrite (proj2 (Z.ltb_ge u (mt + u))) by lia. reflexivity.
+  - destruct (Fpos E1) as (Fq & Fr). rewrite Fq, Fr.
+    pose proof (Z.div_mod qt 2 ltac:(lia)) as Ed. pose proof (Z.mod_pos_bound qt 2 ltac:(lia)) as Bd.
+    set (e := qt mod 2) in *.
+    destruct (0 =? Z.rem qt 2) eqn:E; [ apply Z.eqb_eq in E | apply Z.eqb_neq in E ].
+    + assert (He : e = 0) by lia. rewrite He. replace (u * 0 + mt) with mt by lia.
+      rewrite (proj2 (Z.ltb_ge u mt)) by lia. reflexivity.
+    + assert (He : e = 1) by lia. rewrite He. replace (u * 1 + mt) with (u + mt) by lia.
+      rewrite (ibin_sub s u mt) by (unfold in_range; lia).
+      destruct (Z.eq_dec mt 0) as [Z0|NZ].
+      * rewrite Z0. rewrite Z.add_0_r, Z.sub_0_r. rewrite Z.ltb_irrefl. reflexivity.
+      * rewrite (proj2 (Z.ltb_lt u (u + mt))) by lia. f_equal. f_equal. f_equal. lia.
+Qed.
+
+(** the repaired signed wrapped (= wrapped_between(0, u)) *)
+Lemma swr s x u : wf s -> signed s = true -> in_range s x -> in_range s u -> 0 < u ->
+  irun s (ienv [x; u]) p_s_wrapped = Ret ([], [x mod u]).
+Proof.
+  intros Hw Hs Hx Hu H0. destruct (range_facts s Hw) as (Hmin & Hmax & _). pose proof (signed_min s Hs) as Hsm. unfold in_range in *.
+  isimp. zdec.
+  rewrite (ibin_sub s u 0) by (unfold in_range; lia). rewrite Z.sub_0_r.
+  rewrite (ibin_remt s x u) by lia. rewrite (ibin_remt s 0 u) by lia. rewrite Z.rem_0_l by lia.
+  destruct (quot_rem_floor x u H0) as (Ex & Bx & Fneg & Fpos). cbv zeta in *.
+  set (mt := Z.rem x u) in *.
+  destruct (mt <? 0) eqn:E1; [ apply Z.ltb_lt in E1 | apply Z.ltb_ge in E1 ].
+  - destruct (Fneg E1) as (_ & Fr). rewrite Fr.
+    rewrite (ibin_add s mt u) by (unfold in_range; lia).
+    rewrite (ibin_sub s (mt + u) 0) by (unfold in_range; lia). rewrite Z.sub_0_r.
+    rewrite (proj2 (Z.ltb_ge (mt + u) 0)) by lia.
+    rewrite (ibin_add s 0 (mt + u)) by (unfold in_range; lia). reflexivity.
+  - destruct (Fpos E1) as (_ & Fr). rewrite Fr.
+    rewrite (ibin_sub s mt 0) by (unfold in_range; lia). rewrite Z.sub_0_r.
+    rewrite (proj2 (Z.ltb_ge mt 0)) by lia.
+    rewrite (ibin_add s 0 mt) by (unfold in_range; lia). reflexivity.
 Qed.
 
 Lemma C17_int_wrap : C17_int_wrap_stmt.
 Proof.
-  intros s x u Hw Hx Hu. destruct (range_facts s Hw) as (Hmin & Hmax & Hu0). unfold in_range in *.
+  intros s x u Hw H2 Hx Hu. destruct (range_facts s Hw) as (Hmin & Hmax & Hu0).
   split; [ | split ].
   - intros Hs. specialize (Hu0 Hs). split; [ | split; [ | split ] ].
-    + intros H0. isimp. zdec. rewrite (ibin_rem s x u) by lia. reflexivity.
+    + intros H0. unfold in_range in *. isimp. zdec. rewrite (ibin_rem s x u) by lia. reflexivity.
     + intros H0. isimp. zdec. reflexivity.
-    + intros H0 H2. isimp. zdec.
-      rewrite (ibin_add s u u) by (unfold in_range; lia).
-      rewrite (ibin_rem s x (u + u)) by lia.
-      replace (u + u) with (2 * u) by lia.
-      pose proof (Z.mod_pos_bound x (2 * u) ltac:(lia)) as Hm.
-      unfold tri. destruct (x mod (2 * u) <? u) eqn:E; [ reflexivity | ].
-      apply Z.ltb_ge in E. rewrite (ibin_sub s (2 * u) (x mod (2 * u))) by (unfold in_range; lia). reflexivity.
+    + intros H0. apply upp; assumption.
     + intros H0. isimp. zdec. reflexivity.
   - intros Hs. split; [ | split; [ | split ] ].
-    + intros H0 Hg.
-      destruct (wb_core s x 0 u Hw ltac:(unfold in_range; lia) ltac:(unfold in_range; lia) ltac:(unfold in_range; lia) ltac:(lia) Hg)
-        as (r & Hr & Hr1 & Hr2).
-      assert (Hrx : r = x mod u).
-      { rewrite Z.sub_0_r in Hr2. apply Z.mod_divide in Hr2; [ | lia ]. destruct Hr2 as [c Hc].
-        apply Z.mod_unique_pos with (q := - c); lia. }
-      subst r. revert Hr. isimp. zdec. intros Hr. exact Hr.
+    + intros H0. apply swr; assumption.
     + intros H0. isimp. zdec. reflexivity.
-    + intros H0 H2 Hg. apply spp; assumption.
+    + intros H0. apply spp; assumption.
     + intros H0. isimp. zdec. reflexivity.
   - intros m Hm. apply tri_range. exact Hm.
 Qed.
 
+Lemma C17_repaired : C17_repaired_stmt.
+Proof. intros d. destruct d; repeat split; vm_compute; reflexivity. Qed.
